@@ -341,7 +341,7 @@ public:
     auto frame = WebSocketFrame::makeText(text);
     generateMaskKey(frame.maskKey);
     auto wire = frame.serialize(true); // client MUST mask
-    sendRawBytes(wire.data(), wire.size());
+    sendUnlessCloseSent(wire);
   }
 
   void sendBinary(const std::vector<std::uint8_t>& data)
@@ -350,7 +350,7 @@ public:
     auto frame = WebSocketFrame::makeBinary(data);
     generateMaskKey(frame.maskKey);
     auto wire = frame.serialize(true);
-    sendRawBytes(wire.data(), wire.size());
+    sendUnlessCloseSent(wire);
   }
 
   void sendPing(const std::vector<std::uint8_t>& payload = {})
@@ -359,7 +359,7 @@ public:
     auto frame = WebSocketFrame::makePing(payload);
     generateMaskKey(frame.maskKey);
     auto wire = frame.serialize(true);
-    sendRawBytes(wire.data(), wire.size());
+    sendUnlessCloseSent(wire);
   }
 
   void sendClose(std::uint16_t code = 1000, const std::string& reason = "")
@@ -371,6 +371,11 @@ public:
     auto frame = WebSocketFrame::makeClose(code, reason);
     generateMaskKey(frame.maskKey);
     auto wire = frame.serialize(true);
+    // RFC 6455 Section 5.5.1: no data frame may follow a Close frame. The flag
+    // flips and the frame is enqueued under _sendMutex, so a concurrent
+    // sendText/sendBinary/sendPing is either enqueued BEFORE this Close or dropped.
+    std::lock_guard<std::mutex> lock(_sendMutex);
+    _closeSent = true;
     sendRawBytes(wire.data(), wire.size());
   }
 
@@ -544,6 +549,10 @@ private:
     _upgradeComplete.store(false);
     _closeEchoed.store(false); // re-arm the one-shot CLOSE echo for this connection
     _recvClosed.store(false);  // a new connection consumes input again
+    {
+      std::lock_guard<std::mutex> lock(_sendMutex);
+      _closeSent = false; // no CLOSE frame sent on the new connection yet
+    }
 
     // Register the global callbacks on the LOCAL transport. Each weak-captures
     // the client (NEVER an owning shared_ptr<Transport> of its own _transport —
@@ -886,6 +895,10 @@ private:
       // check was dead (CLOSING is never stored), so a peer that sent two CLOSE
       // frames in one TCP segment would have been echoed twice. _closeEchoed is
       // reset per connection in doConnect().
+      // RFC 6455 Section 1.4: after receiving a Close frame a peer discards any
+      // further data received; stop consuming input of this connection.
+      _recvClosed.store(true);
+
       if (!_closeEchoed.exchange(true))
       {
         sendClose(code, reason);
@@ -1067,6 +1080,10 @@ private:
         generateMaskKey(frame.maskKey);
         auto wire = frame.serialize(true);
         auto shared = std::make_shared<std::vector<std::uint8_t>>(std::move(wire));
+        // Same gate as sendClose(): a sender that snapshotted the transport
+        // before it was cleared above is ordered before this CLOSE or dropped.
+        std::lock_guard<std::mutex> sendLock(_sendMutex);
+        _closeSent = true;
         t->sendAsync(sid, shared->data(), shared->size(),
                      [shared](SessionId, const SendResult&) {});
       }
@@ -1157,6 +1174,20 @@ private:
     catch (...)
     {
     }
+  }
+
+  /// \brief Send a data/ping frame unless this connection's CLOSE frame has
+  /// already been sent. The recheck and the enqueue are ATOMIC under _sendMutex
+  /// w.r.t. sendClose() / the graceful-teardown CLOSE (which flip _closeSent under
+  /// the same mutex), mirroring WebSocketServer's closeSent recheck.
+  void sendUnlessCloseSent(const std::vector<std::uint8_t>& wire)
+  {
+    std::lock_guard<std::mutex> lock(_sendMutex);
+    if (_closeSent)
+    {
+      return; // drop: the close handshake has started
+    }
+    sendRawBytes(wire.data(), wire.size());
   }
 
   void sendRawBytes(const std::uint8_t* data, std::size_t len)
@@ -1257,9 +1288,17 @@ private:
   // CLOSE is echoed, re-armed in doConnect() per connection. Replaces the dead
   // _state==CLOSING guard (CLOSING is never stored — it is a reserved state).
   std::atomic<bool> _closeEchoed{false};
-  // Set when the connection was failed (protocol error): all further input of
-  // this connection is discarded. Re-armed in doConnect() per connection.
+  // Set when the connection was failed (protocol error) or the peer's CLOSE
+  // frame was received: all further input of this connection is discarded.
+  // Re-armed in doConnect() per connection.
   std::atomic<bool> _recvClosed{false};
+
+  // Send gate: _closeSent flips under _sendMutex in the same critical section
+  // that enqueues the CLOSE frame; data/ping sends recheck it under the same
+  // mutex. _sendMutex is taken BEFORE the leaf _transportMutex (sendRawBytes) and
+  // is never held across stop()/join()/user callbacks.
+  std::mutex _sendMutex;
+  bool _closeSent = false; // guarded by _sendMutex
 
   // Fragment reassembly (protected by _dataMutex)
   std::vector<std::uint8_t> _fragmentBuffer;
